@@ -14,6 +14,8 @@ BUILTIN_SCALARS = ["String", "Int", "Float", "Boolean", "ID"]
 OUT_WRAPPERS = ["{}", "{}!", "[{}]", "[{}!]", "[{}]!", "[{}!]!", "[[{}!]]", "[[{}]!]!"]
 IN_WRAPPERS = ["{}", "{}!", "[{}]", "[{}!]", "[{}]!", "[{}!]!", "[[{}!]!]"]
 
+DEEP_WRAPPERS = ["[[[[{}!]!]!]!]!", "[[[[{}!]!]!]!]", "[[[{}]]]", "[[[{}!]]!]!"]
+
 WORDS = ["user", "name", "item", "count", "value", "status", "owner", "title", "code", "data", "node", "edge", "total", "price", "flag", "kind", "label", "score"]
 
 
@@ -378,6 +380,8 @@ class SchemaGen:
         pool += allow_inputs * 2
         base = rng.choice(pool)
         w = rng.choice(wrappers or IN_WRAPPERS)
+        if "wrap.deep" in self.dirty and wrappers is None and rng.random() < 0.15:
+            w = rng.choice(DEEP_WRAPPERS)  # up to nine wrappers: the deepest type reference the default introspection query still resolves
         self.feats.add("in.wrap." + w.format("T"))
         return w.format(base)
 
@@ -387,6 +391,8 @@ class SchemaGen:
         leaf = list(BUILTIN_SCALARS) + list(self.spec.enums) + list(self.spec.scalars)
         base = rng.choice(comp) if (comp and rng.random() < composite_bias) else rng.choice(leaf)
         w = rng.choice(OUT_WRAPPERS)
+        if "wrap.deep" in self.dirty and rng.random() < 0.15:
+            w = rng.choice(DEEP_WRAPPERS)
         self.feats.add("out.wrap." + w.format("T"))
         return w.format(base)
 
